@@ -111,6 +111,37 @@ pub fn gen_c07(o: &mut Out, tier: &str, seed: u64) {
             }
         }
     }
+    // verifications in one process, one after the other: a rejected instruction (undecodable point, non-canonical
+    // scalar, changed statement) in between leaves nothing behind; also across instructions
+    {
+        let mut prev: Option<(String, String)> = None;
+        for instr in ["zero", "pubkey", "ctct", "ctcmt", "val2", "val3", "bval2", "bval3", "cap"] {
+            let Some(b) = instance(&mut r, instr) else { continue };
+            let cl = ctx_len(instr);
+            let h = hex(&b);
+            let tok = |x: &[u8]| format!("{}:{}", instr, hex(x));
+            let mut seq = vec![tok(&b)];
+            for (off, fill) in [(b.len() - 32, 0xffu8), (cl, 0xff), (0, 0xff), (cl, 0x00), (b.len() - 32, 0x00)] {
+                let mut m = b.clone();
+                for x in m[off..off + 32].iter_mut() { *x = fill; }
+                seq.push(tok(&m)); seq.push(tok(&b));
+            }
+            if let Some((pi, ph)) = &prev { seq.push(format!("{}:{}", pi, ph)); seq.push(tok(&b)); }
+            o.op(&format!("{}.sequence", instr), &format!("vseq {}", seq.join(" ")));
+            prev = Some((instr.to_string(), h));
+        }
+        if let (Some(b), Some((pi, ph))) = (range_instance(&mut r, 64), &prev) {
+            let tok = |x: &[u8]| format!("range64:{}", hex(x));
+            let mut seq = vec![tok(&b)];
+            for off in [264usize, 264 + 64, 264 + 128, 264 + 224, b.len() - 32, 0] {
+                let mut m = b.clone();
+                for x in m[off..off + 32].iter_mut() { *x = 0xff; }
+                seq.push(tok(&m)); seq.push(tok(&b));
+            }
+            seq.push(format!("{}:{}", pi, ph)); seq.push(tok(&b));
+            o.op("range64.sequence", &format!("vseq {}", seq.join(" ")));
+        }
+    }
     // same-length proof fields presented to a different instruction (with that instruction's own true context)
     let fam160 = ["val2", "bval2"];
     let fam192 = ["val3", "bval3", "ctcmt"];
